@@ -160,7 +160,7 @@ static void execute(const Exec &e, const vo::Fail &fail, Result *res = nullptr)
                     if (solvesSinceSwitch > 0)
                         prevOp.clear();
                     std::string ctx = opIndex == 0 ? "|first-solve" : prevOp == "Q" ? "|after-clearQuery" : prevOp == "C" ? "|after-clear" : (!prevOp.empty() ? "|after-switch" : "|continued");
-                    if (sv != ob::PlannerStatus::INVALID_START && sv != ob::PlannerStatus::INVALID_GOAL)
+                    if (sv != ob::PlannerStatus::INVALID_START)  // (Invalid goal still means the start states were consumed)
                         ++solvesSinceSwitch;
                     auto usable = [&](const ob::State *x) { return space->satisfiesBounds(x) && P->isValid(x); };
                     if (sv == ob::PlannerStatus::INVALID_START)
